@@ -405,6 +405,13 @@ def peval(fn, start, known, max_paths=400, max_steps=60000, _depth=0):
                         for dv, name in rv["vars"]:
                             if name == known[sig]:
                                 val = ("c", dv)
+                    # a discriminant can also be fixed by the *type* it is read from ("@UnaryOp": "Not"), for scrutinees that
+                    # only exist as unnamed temporaries (`match (op, v)`)
+                    tkey = "@" + str(rv.get("ty", "")).split("<")[0].split("::")[-1]
+                    if val is None and tkey in known:
+                        for dv, name in rv["vars"]:
+                            if name == known[tkey]:
+                                val = ("c", dv)
                     w = wenv.get(rv["of"]["l"]) if not rv["of"]["p"] else None
                     if val is None and w is not None:
                         for dv, name in rv["vars"]:
